@@ -4,7 +4,7 @@ namespace Gql.Validate.Rules
 open Gql Gql.Validate
 
 /-- the shared `validate` closure: `true` = `emitError()` is called -/
-def spreadImpossible (s : Schema) (parent : Option Definition) (fragType : Name) : Bool :=
+def spreadImpossible (s : SV) (parent : Option Definition) (fragType : Name) : Bool :=
   match parent with
   | none => false
   | some pd =>
@@ -21,7 +21,7 @@ def spreadImpossible (s : Schema) (parent : Option Definition) (fragType : Name)
         if !isCompositeType ft then false
         else !((s.possible ft.name).any fun f => pds.contains f)
 
-def possibleFragmentSpreadsStep (s : Schema) (_ : QueryDoc) (e : Event) : List RErr :=
+def possibleFragmentSpreadsStep (s : SV) (_ : QueryDoc) (e : Event) : List RErr :=
   match e.p with
   | .inlineFragment f parent =>
     if spreadImpossible s parent f.typeCond then
